@@ -1,0 +1,101 @@
+//go:build verif
+
+// Verification hooks (build tag "verif" only): the receive side of a SotW and of a delta stream on
+// a real DiscoveryServer, run to completion on a scripted stream with a panic of the receive
+// goroutine turned into a value. No behaviour change; absent from normal builds.
+
+package xds
+
+import (
+	"time"
+
+	discovery "github.com/envoyproxy/go-control-plane/envoy/service/discovery/v3"
+
+	"istio.io/istio/pkg/xds"
+)
+
+// VerifC04NewStreamConnection builds the connection StreamAggregatedResources / StreamDeltas would build
+// for a new stream (no proxy yet: the first request initialises it).
+func VerifC04NewStreamConnection(s *DiscoveryServer, stream DiscoveryStream, identities []string) *Connection {
+	con := newConnection("verif-peer", stream)
+	con.s = s
+	con.ids = identities
+	return con
+}
+
+// VerifC04NewDeltaStreamConnection is the delta counterpart.
+func VerifC04NewDeltaStreamConnection(s *DiscoveryServer, stream DeltaDiscoveryStream, identities []string) *Connection {
+	con := newDeltaConnection("verif-peer", stream)
+	con.s = s
+	con.ids = identities
+	return con
+}
+
+// VerifC04Receive runs xds.Receive on the connection (SotW).
+func VerifC04Receive(con *Connection) xds.VerifC04RecvResult {
+	return xds.VerifC04Receive(con)
+}
+
+// VerifC04DeltaRecvResult is what one run of receiveDelta did.
+type VerifC04DeltaRecvResult struct {
+	Forwarded         []*discovery.DeltaDiscoveryRequest
+	Err               error
+	InitializedClosed bool
+	Panic             any
+}
+
+// VerifC04ReceiveDelta runs receiveDelta until the stream's Recv returns an error; the request channel is
+// drained concurrently, as StreamDeltas does.
+func VerifC04ReceiveDelta(s *DiscoveryServer, con *Connection) (res VerifC04DeltaRecvResult) {
+	drained := make(chan struct{})
+	go func() {
+		defer close(drained)
+		for r := range con.deltaReqChan {
+			res.Forwarded = append(res.Forwarded, r)
+		}
+	}()
+	func() {
+		defer func() {
+			if r := recover(); r != nil {
+				res.Panic = r
+			}
+		}()
+		s.receiveDelta(con, con.ids)
+	}()
+	select {
+	case <-drained:
+	case <-time.After(2 * time.Second):
+	}
+	select {
+	case e, ok := <-con.ErrorCh():
+		if ok {
+			res.Err = e
+		}
+	default:
+	}
+	select {
+	case <-con.InitializedCh():
+		res.InitializedClosed = true
+	default:
+	}
+	return res
+}
+
+// VerifC04ProxyInitialized reports whether the first request initialised the connection's proxy.
+func VerifC04ProxyInitialized(con *Connection) bool {
+	return con.proxy != nil && con.proxy.WatchedResources != nil
+}
+
+// VerifC04WatchedTypes lists the type URLs the connection's proxy watches.
+func VerifC04WatchedTypes(con *Connection) []string {
+	if con.proxy == nil {
+		return nil
+	}
+	con.proxy.RLock()
+	defer con.proxy.RUnlock()
+	out := make([]string, 0, len(con.proxy.WatchedResources))
+	for k := range con.proxy.WatchedResources {
+		out = append(out, k)
+	}
+	return out
+}
